@@ -200,6 +200,30 @@ fn dispatch(cmd: &str, a: &[&str]) -> Result<Vec<String>, String> {
             };
             Ok(vec![hex(r.as_bytes())])
         }
+        "response_roundtrip" => {
+            // serialiser, code, content type, body, nheaders, (name value)*
+            use crate::response::{Response, STATUS_CODE_REASON_PHRASE};
+            let ser = ustr(a[0]); let code: i16 = a[1].parse().unwrap(); let ctype = ustr(a[2]); let body = unhex(a[3]); let nh: usize = a[4].parse().unwrap();
+            let mut headers = vec![];
+            for i in 0..nh { headers.push(Header { name: ustr(a[5 + 2 * i]), value: ustr(a[6 + 2 * i]) }); }
+            let list = Response::status_code_reason_phrase_list();
+            let reason = list.iter().find(|x| *x.status_code == code).map(|x| x.reason_phrase.to_string()).unwrap_or("?".to_string());
+            let _ = STATUS_CODE_REASON_PHRASE.n200_ok;
+            let cr = crate::range::ContentRange { unit: "bytes".to_string(), range: crate::range::Range { start: 0, end: body.len() as u64 }, size: body.len().to_string(), body: body.clone(), content_type: ctype };
+            let mut resp = Response { http_version: "HTTP/1.1".to_string(), status_code: code, reason_phrase: reason, headers, content_range_list: vec![cr] };
+            let raw = if ser == "generate" { resp.generate() } else {
+                let req = Request { method: "GET".to_string(), request_uri: "/".to_string(), http_version: "HTTP/1.1".to_string(), headers: vec![], body: vec![] };
+                Response::generate_response(resp, req)
+            };
+            let back = Response::parse(&raw)?;
+            let mut out = vec![hex(back.status_code.to_string().as_bytes()), hex(back.reason_phrase.as_bytes())];
+            match back.content_range_list.get(0) {
+                Some(c) => { out.push(hex(c.content_type.as_bytes())); out.push(hex(&c.body)); out.push(hex(format!("{}-{}/{}", c.range.start, c.range.end, c.size).as_bytes())); }
+                None => { out.push(hex(b"<none>")); out.push(hex(b"")); out.push(hex(b"<none>")); }
+            }
+            out.extend(headers_out(&back.headers));
+            Ok(out)
+        }
         "uri_roundtrip" => {
             let t = ustr(a[0]);
             let enc = crate::url::URL::percent_encode(&t);
